@@ -37,13 +37,63 @@ def scenario(repo, tmpdir, seed=1):
     return sim, viols
 
 
+def scenario_late_teardown(repo, tmpdir, seed=1):
+    """In-process replacement (seeded change C07-18): the application builds a new SyncObj on the journal files while the
+    tear-down of the old one is still pending (`destroy()` of an auto-tick object only sets a flag).  The old incarnation
+    has an unsaved commit index; the successor adopts a later term and votes; then the old incarnation's journal is
+    closed.  Nothing the old object does at that moment may bring back its term and vote: after the next kill + restart the
+    node is still in the later term and refuses a second candidate of it."""
+    sim = Sim(repo, ["a", "b", "v"], seed=seed, journal_dir=tmpdir)
+    link = lambda: (sim.up.update({("v", "a"), ("v", "b")}), sim.alive.update({frozenset(("v", "a")), frozenset(("v", "b"))}))
+    link()
+    rv = lambda t: {"type": "request_vote", "term": t, "last_log_index": 1, "last_log_term": 0}
+    sim.inject("a", "v", {"type": "append_entries", "term": 3, "commit_index": 1, "entries": [], "prevLogIdx": 1, "prevLogTerm": 0})
+    old = sim.objs["v"]
+    sim.kill("v")                      # abandoned, not torn down yet
+    sim.restart("v")
+    link()
+    sim.inject("a", "v", rv(4))
+    term_voted = sim.objs["v"].raftCurrentTerm
+    try:
+        getattr(old, "_SyncObj__raftLog")._destroy()        # the late tear-down of the old incarnation's journal
+    except Exception:
+        pass
+    sim.kill("v")
+    sim.restart("v")
+    link()
+    term_after = sim.objs["v"].raftCurrentTerm
+    sim.inject("b", "v", rv(4))
+    votes = [(d, m["term"]) for (s_, d, m) in sim.sent if s_ == "v" and m["type"] == "response_vote"]
+    viols = []
+    got = sorted(set(d for d, t in votes if t == 4))
+    if len(got) > 1:
+        viols.append({"signature": "restart:vote-granted-twice-in-term",
+                      "what": "voter v granted its vote in term 4 to %s: the journal of its previous incarnation was closed after the "
+                              "vote for a was stored, then v was killed and restarted" % got})
+    if term_after < term_voted:
+        viols.append({"signature": "restart:term-moved-backwards",
+                      "what": "voter v voted in term %d; after the late tear-down of its previous incarnation and a restart it is in term %d"
+                              % (term_voted, term_after)})
+    return sim, viols, {"voted_in": term_voted, "votes": votes}
+
+
 def run(ctx):
     t0 = time.time()
     sim, viols = scenario(ctx.repo, ctx.tmpdir())
+    if not viols:
+        sim2, viols, info = scenario_late_teardown(ctx.repo, ctx.tmpdir())
+        r = result("witness.d16_double_vote_after_restart", tag(viols, "d16_double_vote_after_restart", {"late": True}),
+                   {"schedule_events": len(sim.trace) + len(sim2.trace), "late_teardown": info}, t0)
+        if info["voted_in"] != 4 or not info["votes"]:
+            r["inconclusive"] = "the successor did not vote in term 4 (%s)" % info
+        return r
     return result("witness.d16_double_vote_after_restart", tag(viols, "d16_double_vote_after_restart", {}),
                   {"schedule_events": len(sim.trace)}, t0)
 
 
 def replay(ctx, violation):
+    if violation.get("replay", {}).get("late"):
+        sim, viols, info = scenario_late_teardown(ctx.repo, ctx.tmpdir())
+        return {"violated": bool(viols), "violations": viols[:5], "info": info}
     sim, viols = scenario(ctx.repo, ctx.tmpdir())
     return {"violated": bool(viols), "violations": viols[:5]}
